@@ -68,9 +68,11 @@ def handleRestore (args : List (String × String)) : String :=
     | none => "bad-op"
     | some failStep =>
       let decoded : Option Unit := if corrupt || faults > maxRetriesConst then none else some ()
+      -- SIDE (optional, default 1): did SQLite leave -wal/-shm behind when a *cancelled* check failed
+      let side : Bool := match natArg? args "SIDE" with | some 0 => false | _ => true
       let inp : Inputs Unit :=
         { outPre := pre, tmpPre := tmppre, fails := fun s => some s == failStep, decoded := decoded, sizesOk := sizes,
-          integrityOn := integ, integrityOk := fun _ => iok, sidecarWal := true, sidecarShm := true, ctxCancelled := cancel, walPre := false, shmPre := false, hotWal := id, decodePanics := false }
+          integrityOn := integ, integrityOk := fun _ => iok, sidecarWal := side, sidecarShm := side, ctxCancelled := cancel, walPre := false, shmPre := false, hotWal := id, decodePanics := false }
       let r := restore inp
       let res := match r.2 with
         | .ok _ => "ok" | .error .outputExists => "exists" | .error (.step s) => fmtStep s | .error .crash => "crash"
